@@ -91,7 +91,7 @@ struct rtg {
 	rt_ord_cb ord_cb;
 	char *altstack;
 	struct dead dead[16]; int ndead;
-	long alarm_steps;
+	long alarm_steps, total_steps;
 };
 static struct rtg *G;
 
@@ -530,7 +530,7 @@ int rt_any_enabled (void) { int i; for (i = 0; i < G->nf; i++) if (rt_enabled (i
 void rt_grant_choice (int t, int choice) {
 	struct fiber *f = &G->f[t];
 	f->choice = choice;
-	G->steps++;
+	G->steps++; G->total_steps++;
 	if (f->state == F_BLOCKED) { f->last = f->pend; f->last.kind = OP_FWAIT; f->last.tag = "wake"; f->first = 0; }
 	run_fiber (f);
 }
@@ -583,7 +583,9 @@ static void on_signal (int sig, siginfo_t *si, void *ucv) {
 		_exit (2);
 	}
 	if (sig == SIGVTALRM) {
-		if (G->steps != G->alarm_steps) { G->alarm_steps = G->steps; return; }
+		/* progress is judged on a counter that rt_reset never clears: the per-run counter restarts at 0 with every schedule, and a later run
+		   standing at the same count as when the previous alarm came looked like 'no progress' (about one alarm in a hundred) */
+		if (G->total_steps != G->alarm_steps) { G->alarm_steps = G->total_steps; return; }
 	}
 	if (sig == SIGVTALRM) { rt_watchdog_hits++; rt_violation ("O-prog", "thread ran for several seconds of CPU time without reaching a scheduling point (unbounded loop on plain memory)"); }
 	else rt_violation ("O-crash", "signal %d at address %p (nsync ASSERT failure or wild access)", sig, si->si_addr);
